@@ -4,36 +4,68 @@ import (
 	banktypes "github.com/cosmos/cosmos-sdk/x/bank/types"
 
 	"github.com/functionx/fx-core/v8/x/erc20/types"
-	"github.com/functionx/fx-core/v8/zzverif/models"
 	"github.com/functionx/fx-core/v8/zzverif/rt"
 )
 
 const verifAuthority = "fx10d07y265gmmuvt4z0w9aw880jnsr700jqjzsmz"
 
+// verifC16State: an erc20 keeper over models in a state in which each of the five privileged
+// requests below WOULD succeed and write if it came from the governance authority (the accept
+// witness checks exactly that), so that a handler going past a missing or weakened guard is seen.
+func verifC16State() *verifErc20Env {
+	e := verifNewErc20Env()
+	e.k.AddTokenPair(e.ctx, types.TokenPair{Erc20Address: verifContract.Hex(), Denom: "usdt", Enabled: true, ContractOwner: types.OWNER_MODULE})
+	e.bank.SetDenomMetaData(e.ctx, banktypes.Metadata{Base: "usdt", Display: "usdt", Name: "Tether", Symbol: "USDT",
+		DenomUnits: []*banktypes.DenomUnit{{Denom: "usdt", Exponent: 0, Aliases: []string{"eth0xaa"}}}})
+	e.k.SetAliasesDenom(e.ctx, "usdt", "eth0xaa")
+	return e
+}
+
+func (e *verifErc20Env) changes() int {
+	return e.ms.TotalWrites() + e.bank.Ops() + e.tok.Ops() + len(e.evm.Contracts)
+}
+
+func (e *verifErc20Env) callPrivileged(handler int, auth string) error {
+	var err error
+	switch handler {
+	case 0:
+		p := types.DefaultParams()
+		p.EnableErc20 = false
+		_, err = e.k.UpdateParams(e.ctx, &types.MsgUpdateParams{Authority: auth, Params: p})
+	case 1:
+		_, err = e.k.RegisterCoin(e.ctx, &types.MsgRegisterCoin{Authority: auth, Metadata: banktypes.Metadata{Base: "test", Display: "test", Name: "Test", Symbol: "TEST",
+			DenomUnits: []*banktypes.DenomUnit{{Denom: "test", Exponent: 0}, {Denom: "TEST", Exponent: 18}}}})
+	case 2:
+		_, err = e.k.RegisterERC20(e.ctx, &types.MsgRegisterERC20{Authority: auth, Erc20Address: "0x00000000000000000000000000000000000000E2"})
+	case 3:
+		_, err = e.k.ToggleTokenConversion(e.ctx, &types.MsgToggleTokenConversion{Authority: auth, Token: "usdt"})
+	default:
+		_, err = e.k.UpdateDenomAlias(e.ctx, &types.MsgUpdateDenomAlias{Authority: auth, Denom: "usdt", Alias: "bsc0xbb"})
+	}
+	return err
+}
+
 // VerifC16Erc20: the five privileged erc20 handlers reject any authority other than the keeper's
-// and write nothing.
+// and change nothing (store, bank metadata, deployed contracts).
 func VerifC16Erc20() {
-	ms := models.NewMultiStore(types.StoreKey)
-	ctx := models.NewContext(ms, 10, 1700000000)
-	k := Keeper{storeKey: models.NewStoreKey(types.StoreKey), cdc: models.NewCodec(nil), authority: verifAuthority}
+	e := verifC16State()
 	lens := []int{0, len(verifAuthority), len(verifAuthority) + 1}
 	auth := rt.Str("authority", lens[rt.Choose("authority.len", len(lens))])
 	rt.Assume(rt.Not(rt.StrEq(auth, verifAuthority)))
-	before := ms.TotalWrites()
-	var err error
-	switch rt.Choose("handler", 5) {
-	case 0:
-		_, err = k.UpdateParams(ctx, &types.MsgUpdateParams{Authority: auth, Params: types.DefaultParams()})
-	case 1:
-		_, err = k.RegisterCoin(ctx, &types.MsgRegisterCoin{Authority: auth, Metadata: banktypes.Metadata{Base: "test", Display: "test", Symbol: "TEST"}})
-	case 2:
-		_, err = k.RegisterERC20(ctx, &types.MsgRegisterERC20{Authority: auth, Erc20Address: "0x0000000000000000000000000000000000000001"})
-	case 3:
-		_, err = k.ToggleTokenConversion(ctx, &types.MsgToggleTokenConversion{Authority: auth, Token: "test"})
-	default:
-		_, err = k.UpdateDenomAlias(ctx, &types.MsgUpdateDenomAlias{Authority: auth, Denom: "test", Alias: "alias"})
-	}
+	before := e.changes()
+	err := e.callPrivileged(rt.Choose("handler", 5), auth)
 	rt.Cover("called")
 	rt.Assert(err != nil, "foreign authority is rejected")
-	rt.Assert(ms.TotalWrites() == before, "rejected privileged message writes nothing")
+	rt.Assert(e.changes() == before, "rejected privileged message changes nothing")
+}
+
+// VerifC16Erc20Accepts: witness that each request does take effect for the governance authority.
+func VerifC16Erc20Accepts() {
+	e := verifC16State()
+	before := e.changes()
+	h := rt.Choose("handler", 5)
+	err := e.callPrivileged(h, verifAuthority)
+	rt.Assert(err == nil, "governance authority is accepted")
+	rt.Assert(e.changes() > before, "accepted privileged message takes effect")
+	rt.Cover("accepted")
 }
